@@ -244,6 +244,7 @@ def invoke_call(X, ins):
     argv = [recv] + [X.val(a) for a in ins['args']]
     c = V.contracts['funcs'].get(key)
     X.nonnil(X.w.Iface.tag(recv), ins['pos'], 'method call on nil interface')
+    callsite_assertions(X, ins, key, argv, [ins['recv']] + list(ins['args']))
     if c is not None:
         return contract_call(X, ins, key, c, argv, iface_sig=ins['sig'])
     if ext is not None:
